@@ -212,7 +212,7 @@ int main(int argc, char **argv) {
         for (int res = 0; res <= 15; res++) {
             CellVec cv = {0};
             cv_pentagon_strata(&cv, res, quick ? 1 : 2); cv_random_cells(&cv, res, quick ? 6 : 30); if (res >= 2) cv_seam_cells(&cv, res, quick ? 1 : 3); cv_sparse_digit_sample(&cv, res, quick ? 4 : 30);
-            int64_t nplain = cv.n; cv_coarse_boundary_cells(&cv, res, quick ? 1 : 4); cv_basecell_vertex_cells(&cv, res, quick ? (res >= 13 ? 12 : 3) : 40);
+            int64_t nplain = cv.n; cv_coarse_boundary_cells(&cv, res, quick ? 1 : 4); cv_basecell_vertex_cells(&cv, res, quick ? (res >= 13 ? 60 : 4) : 240);
             for (int64_t i = 0; i < cv.n; i++) {
                 if (quick && i < nplain && (i % 3) != (res % 3)) continue;
                 H3Index o = cv.v[i];
@@ -273,7 +273,7 @@ int main(int argc, char **argv) {
             CellVec cv = {0};
             cv_pentagon_strata(&cv, res, quick ? 1 : 2); cv_random_cells(&cv, res, quick ? 8 : 40); if (res >= 2) cv_seam_cells(&cv, res, quick ? 1 : 3); cv_sparse_digit_sample(&cv, res, quick ? 4 : 30);
             if (res <= 2) { CellVec all = {0}; cv_all_cells(&all, res); for (int64_t i = 0; i < all.n; i += (res == 2 ? (quick ? 40 : 6) : (quick ? 6 : 1))) cv_push(&cv, all.v[i]); cv_free(&all); }
-            int64_t nplain = cv.n; cv_coarse_boundary_cells(&cv, res, quick ? 1 : 4); cv_basecell_vertex_cells(&cv, res, quick ? (res >= 13 ? 12 : 3) : 40);
+            int64_t nplain = cv.n; cv_coarse_boundary_cells(&cv, res, quick ? 1 : 4); cv_basecell_vertex_cells(&cv, res, quick ? (res >= 13 ? 60 : 4) : 240);
             for (int64_t i = 0; i < cv.n; i++) {
                 if (quick && res > 2 && i < nplain && (i % 3) != (res % 3)) continue;
                 H3Index a = cv.v[i];
